@@ -1,7 +1,7 @@
 """Lemma functions (C02, C11, C12): small Python programs over the public API, executed
 symbolically by pyvc against the CONTRACTS of the operations they call (never their
 bodies).  Each `assert` is a proof obligation.  This file is not part of the library."""
-from measured import Dimension, One, Number, IdentityPrefix, Prefix, Quantity, Unit
+from measured import Dimension, One, Number, IdentityPrefix, Prefix, Quantity, Unit, LogarithmicUnit
 
 
 def dim_commutative(a: Dimension, b: Dimension) -> None:
@@ -128,3 +128,36 @@ def qty_trichotomy(a: Quantity, b: Quantity) -> None:
 
 def qty_le_ge_mirror(a: Quantity, b: Quantity) -> None:
     assert (a <= b) == (b >= a)
+
+
+# ---- C18: the level of a quantity is strictly increasing in the quantity ------------------------
+
+
+def level_monotone(lu: LogarithmicUnit, q1: Quantity, q2: Quantity) -> None:
+    if q1.unit is q2.unit and q1.magnitude < q2.magnitude:
+        assert lu.level(q1).magnitude < lu.level(q2).magnitude
+
+
+# ---- vacuity canaries: each MUST fail (a canary that is discharged means the hypotheses of the lemma
+# contracts are contradictory and every lemma above would hold vacuously) --------------------------
+
+
+def canary_unit(a: Unit, b: Unit) -> None:
+    assert a * b is a
+
+
+def canary_prefix(p: Prefix, q: Prefix) -> None:
+    assert p * q is p
+
+
+def canary_dim(a: Dimension, b: Dimension) -> None:
+    assert a * b is a
+
+
+def canary_qty(a: Quantity, b: Quantity) -> None:
+    assert a == b
+
+
+def canary_level(lu: LogarithmicUnit, q1: Quantity, q2: Quantity) -> None:
+    if q1.unit is q2.unit and q1.magnitude < q2.magnitude:
+        assert lu.level(q1).magnitude > lu.level(q2).magnitude
